@@ -235,6 +235,31 @@ fn node_scenario(ctx: &Ctx, idx: u64) -> Report {
             // refresh and bootstrap queries carry adversarial node lists
             bed.world.lock().unwrap().hostile_lists = *[0.0, 0.3, 1.0].choose(&mut rng).unwrap();
             let world_addrs: Vec<std::net::SocketAddr> = bed.world.lock().unwrap().nodes.iter().map(|n| n.addr).collect();
+            // valid traffic first, in a third of the runs: one info-hash filled peer by peer with a
+            // get_peers after every announce, so that every exact store size gets asked about
+            if rng.gen_bool(0.33) {
+                let ih = gen::rand_id(&mut rng);
+                let fam = rng.gen_bool(0.5);
+                let c0 = bed.client(fam, 6);
+                let tok = bed
+                    .ask(c0, &Krpc::query(b"tk", gen::rand_id(&mut rng), Query::GetPeers { info_hash: ih, want: None }))
+                    .await
+                    .first()
+                    .and_then(|k| k.as_reply().and_then(|r| r.token.clone()))
+                    .unwrap_or_default();
+                let upto = rng.gen_range(50..260u16);
+                for p in 1..=upto {
+                    let src = bed.client(fam, 6);
+                    bed.inject(src, Krpc::query(gen::tid(&mut rng), gen::rand_id(&mut rng), Query::AnnouncePeer { info_hash: ih, port: Some(p), token: tok.clone() }).encode());
+                    let asker = bed.client(if rng.gen_bool(0.8) { fam } else { !fam }, 7);
+                    bed.inject(asker, Krpc::query(gen::tid(&mut rng), gen::rand_id(&mut rng), Query::GetPeers { info_hash: ih, want: gen::want(&mut rng) }).encode());
+                    if p % 16 == 0 {
+                        sleep_us(bed.client_latency + MS).await;
+                    }
+                }
+                sleep_us(bed.client_latency + 2 * MS).await;
+                report.add("store_sizes_probed_one_by_one", upto as u64);
+            }
             for batch in 0..batches {
                 // a search may be running while the garbage arrives
                 let search = if rng.gen_bool(0.3) {
@@ -361,6 +386,7 @@ pub fn check(tier: Tier) -> Check {
             ("hostile_datagrams_injected_into_a_node", tier.pick(80_000, 1_000_000)),
             ("node_liveness_probes", tier.pick(3_200, 40_000)),
             ("searches_completed_under_garbage", tier.pick(400, 5_000)),
+            ("store_sizes_probed_one_by_one", tier.pick(5_000, 20_000)),
             ("datagrams_duplicated_by_the_network", tier.pick(8_000, 50_000)),
             ("api_calls_racing_deliveries", tier.pick(8_000, 50_000)),
         ],
